@@ -875,6 +875,32 @@ pub proof fn lemma_frags_push(pre: Seq<TextFragment>, post: Seq<TextFragment>, l
         if k < pre.len() { assert(post.drop_last()[k] == post[k]); assert(frag_ok(pre[k], lo, hi)); }
     }
 }
+/// C17: the fragments fs are disjoint from every comment token among the first `upto` tokens of ts
+pub open spec fn cm_ok(fs: Seq<TextFragment>, ts: Seq<Token>, upto: int) -> bool {
+    forall|k: int, j: int| 0 <= k < upto && is_comment_kind((#[trigger] ts[k]).kind) && 0 <= j < fs.len()
+        ==> (#[trigger] fs[j]).e() <= ts[k].span.s() || ts[k].span.e() <= fs[j].s()
+}
+pub open spec fn cm_before(ts: Seq<Token>, upto: int, pos: int) -> bool {
+    forall|k: int| 0 <= k < upto && is_comment_kind((#[trigger] ts[k]).kind) ==> ts[k].span.e() <= pos
+}
+pub proof fn lemma_cm_push(pre: Seq<TextFragment>, post: Seq<TextFragment>, ts: Seq<Token>, upto: int)
+    requires cm_ok(pre, ts, upto), post.len() == pre.len() + 1, post.drop_last() == pre, cm_before(ts, upto, post.last().s())
+    ensures cm_ok(post, ts, upto)
+{
+    assert forall|k: int, j: int| 0 <= k < upto && is_comment_kind((#[trigger] ts[k]).kind) && 0 <= j < post.len()
+        implies (#[trigger] post[j]).e() <= ts[k].span.s() || ts[k].span.e() <= post[j].s() by {
+        if j < pre.len() { assert(post.drop_last()[j] == post[j]); }
+    }
+}
+pub proof fn lemma_cm_next(fs: Seq<TextFragment>, ts: Seq<Token>, upto: int, lo: int)
+    requires cm_ok(fs, ts, upto), 0 <= upto < ts.len(), is_comment_kind(ts[upto].kind) ==> frags_ok(fs, lo, ts[upto].span.s())
+    ensures cm_ok(fs, ts, upto + 1)
+{
+    assert forall|k: int, j: int| 0 <= k < upto + 1 && is_comment_kind((#[trigger] ts[k]).kind) && 0 <= j < fs.len()
+        implies (#[trigger] fs[j]).e() <= ts[k].span.s() || ts[k].span.e() <= fs[j].s() by {
+        if k == upto { assert(frag_ok(fs[j], lo, ts[upto].span.s())); }
+    }
+}
 /*@ type src/parser/block_parser.rs BlockParser
 derive
 rewrite `    tokens: &'t [Token],` => `    pub(crate) tokens: &'t [Token],`
@@ -979,12 +1005,17 @@ spec:
             // [C05] every token that can hold a letter or digit lies inside the text's span
             forall|k: int| 0 <= k < tokens@.len() && content_kind(tokens@[k].kind) && cs(tokens@[k]) < tokens@[k].span.e() ==>
                 t.frags().len() > 0 && t.start_spec() <= cs(#[trigger] tokens@[k]) && tokens@[k].span.e() <= t.end_spec(),      // [C05]
+            // [C17] no byte of a comment token lies in any fragment
+            cm_ok(t.frags(), tokens@, tokens@.len() as int),      // [C17]
 before `debug_assert_adjacent!(tokens);`:
         broadcast use axiom_str_len_bound;
         proof { assert(blen(self.input) <= usize::MAX); }
 loop 0 it it:
             invariant
                 self.wf(), toks_ok(tokens@), tokens@.len() > 0, the_input().len() <= usize::MAX,
+                // [C17] comments seen so far are disjoint from every fragment and end before the pending run [start, end)
+                cm_ok(t.frags(), tokens@, it.index@ as int),      // [C17]
+                cm_before(tokens@, it.index@ as int, start as int),      // [C17]
                 t.wf(),
                 t.end_spec() <= start <= end,
                 end <= cur_off(tokens@, it.index@ as int),
@@ -1005,22 +1036,32 @@ before `match token.kind {`:
             let ghost pre = t.frags();
             let ghost lo = tokens@[0].span.s();
             let ghost start0 = start as int;
+            let ghost idx0 = it.index@ as int;
+            proof { if !(token.kind == TokenKind::Newline || is_comment_kind(token.kind) || token.kind == TokenKind::Escaped) { lemma_cm_next(t.frags(), tokens@, idx0, lo); } }
 after `t.append_str(&self.input[start..end], start);`#0:
-                    proof { if t.frags().len() > pre.len() { lemma_frags_push(pre, t.frags(), lo, start0, end as int); } else { lemma_frags_weaken(pre, lo, start0, end as int); } }
+                    proof { if t.frags().len() > pre.len() { lemma_frags_push(pre, t.frags(), lo, start0, end as int); lemma_cm_push(pre, t.frags(), tokens@, idx0); } else { lemma_frags_weaken(pre, lo, start0, end as int); } }
                     let ghost pre2 = t.frags();
 before `start = token.span.end();`#0:
-                    proof { assert(t.frags().drop_last() =~= pre2); lemma_frags_push(pre2, t.frags(), lo, end as int, token.span.e()); }
+                    proof { assert(t.frags().drop_last() =~= pre2); lemma_frags_push(pre2, t.frags(), lo, end as int, token.span.e());
+                            lemma_cm_push(pre2, t.frags(), tokens@, idx0); lemma_cm_next(t.frags(), tokens@, idx0, lo); }
 after `t.append_str(&self.input[start..end], start);`#1:
-                    proof { if t.frags().len() > pre.len() { lemma_frags_push(pre, t.frags(), lo, start0, token.span.e()); } else { lemma_frags_weaken(pre, lo, start0, token.span.e()); } }
+                    proof {
+                        if t.frags().len() > pre.len() { lemma_frags_push(pre, t.frags(), lo, start0, token.span.s()); lemma_cm_push(pre, t.frags(), tokens@, idx0); } else { lemma_frags_weaken(pre, lo, start0, token.span.s()); }
+                        lemma_cm_next(t.frags(), tokens@, idx0, lo);
+                        lemma_frags_weaken(t.frags(), lo, token.span.s(), token.span.e());
+                    }
 after `t.append_str(&self.input[start..end], start);`#2:
-                    proof { if t.frags().len() > pre.len() { lemma_frags_push(pre, t.frags(), lo, start0, token.span.s() + 1); } else { lemma_frags_weaken(pre, lo, start0, token.span.s() + 1); } }
+                    proof { if t.frags().len() > pre.len() { lemma_frags_push(pre, t.frags(), lo, start0, token.span.s() + 1); lemma_cm_push(pre, t.frags(), tokens@, idx0); } else { lemma_frags_weaken(pre, lo, start0, token.span.s() + 1); }
+                            lemma_cm_next(t.frags(), tokens@, idx0, lo); }
+before `_ => end = token.span.end(),`:
+                // (default arm: the token is not a comment)
 before `t.append_str(&self.input[start..end], start);`#3:
         proof { lemma_mono(tokens@, 0, tokens@.len() - 1); assert(end <= tokens@.last().span.e()); t.lemma_span_order(); }
         let ghost pre = t.frags();
         let ghost lo = tokens@[0].span.s();
         let ghost start0 = start as int;
 after `t.append_str(&self.input[start..end], start);`#3:
-        proof { if t.frags().len() > pre.len() { lemma_frags_push(pre, t.frags(), lo, start0, tokens@.last().span.e()); } else { lemma_frags_weaken(pre, lo, start0, tokens@.last().span.e()); } t.lemma_span_order(); }
+        proof { if t.frags().len() > pre.len() { lemma_frags_push(pre, t.frags(), lo, start0, tokens@.last().span.e()); lemma_cm_push(pre, t.frags(), tokens@, tokens@.len() as int); } else { lemma_frags_weaken(pre, lo, start0, tokens@.last().span.e()); } t.lemma_span_order(); }
 @*/
 /*@ fn src/parser/block_parser.rs BlockParser::capture_slice
 tags C03 C05
@@ -1218,6 +1259,7 @@ after `self.event(Event::Warning(warn))`:
 } // mod block_parser
 
 verus! {
+pub open spec fn is_comment_kind(k: TokenKind) -> bool { k == TokenKind::LineComment || k == TokenKind::BlockComment }
 pub open spec fn is_ws_comment(k: TokenKind) -> bool { k == TokenKind::Whitespace || k == TokenKind::LineComment || k == TokenKind::BlockComment }
 // ---- src/parser/mod.rs (helpers) ----
 /*@ fn src/parser/mod.rs tokens_span
@@ -1804,7 +1846,7 @@ spec:
         mods_ok(r@, 0, old(bp).ext().has(Extensions::INTERMEDIATE_PREPARATIONS)),
 enter:
     hide(toks_ok);
-before `return &[];`:
+?before `return &[];`:
         proof { assert(old(bp).toks().subrange(old(bp).cur(), old(bp).cur()) =~= Seq::<Token>::empty()); lemma_sub_ok(old(bp).toks(), old(bp).cur(), old(bp).cur());
                 let e: &[Token] = &[]; assert(e@ =~= Seq::<Token>::empty()); }
 after `let start = bp.current;`:
@@ -2117,7 +2159,8 @@ before `let tokens = bp.capture_slice(|bp| {`:
             let ghost pre2 = *bp;
 closure @ `|bp| {` `&mut BlockParser` :
         requires *old(bp) == pre2, pre2.wf(), pre2.cur() < pre2.toks().len()
-        ensures final(bp).wf(), final(bp).same(&pre2), final(bp).cur() > pre2.cur(), final(bp).evs() == pre2.evs(),
+        ensures final(bp).wf(), final(bp).same(&pre2), final(bp).evs() == pre2.evs(),
+            final(bp).cur() > pre2.cur(),     // [C03] every iteration of the step loop consumes at least one token (no hang)
 closure @ `|t| !matches!(t, T![@] | T![#] | T![~])` `TokenKind` ret `b: bool`:
         ensures b == !is_marker(t)
 after `let text = bp.text(start, tokens);`:
